@@ -54,6 +54,29 @@ Theorem C02_windows_agree : forall c rc,
   exists st', read_stream utf8_valid inflate window sw_dict wwrite_total fuel rc st bs = (delivered ops, OMore _ st' false)
               /\ r_dps _ st' = w /\ cf_init _ st' = false.
 Proof. exact (fidelity utf8_valid deflate_raw inflate deflate_wf deflate_small H_flate). Qed.
+
+(* Broadcasts share one frame among connections, so it is compressed WITHOUT a dictionary; each connection's window
+   still takes the payload (the peer's inflater sees it as history).  Over any mix of direct sends and broadcasts the
+   window is the suffix of everything that went out compressed ... *)
+Theorem C02_dict_is_history_mixed : forall c l w0 h0 bs w,
+  Forall send_wf l -> win_inv w0 h0 -> send_mixed utf8_valid deflate_raw c w0 l = Some (bs, w) ->
+  win_inv w (h0 ++ compressed_history_mixed utf8_valid deflate_raw c w0 l) /\ sw_enabled w = sw_enabled w0 /\ sw_size w = sw_size w0.
+Proof. exact (dict_is_history_mixed utf8_valid deflate_raw deflate_wf deflate_small). Qed.
+
+(* ... and the peer's window stays equal to it (H_flate_nodict: a stream made without a dictionary inflates to the
+   same bytes whatever dictionary the inflater holds) *)
+Hypothesis H_flate_nodict : forall d p lim, (Z.of_nat (length p) <= lim)%Z ->
+  inflate d (strip_tail (deflate_raw [] p) ++ flate_tail9) lim = Some p.
+
+Theorem C02_windows_agree_mixed : forall c rc,
+  r_server rc = negb (w_server c) -> r_pmd rc = w_pmd c -> limit_ok rc ->
+  forall l ws hist st bs w fuel,
+  Forall (send_ok utf8_valid deflate_raw c rc) l -> win_inv ws hist ->
+  r_dps _ st = ws -> cf_init _ st = false ->
+  send_mixed utf8_valid deflate_raw c ws l = Some (bs, w) -> (length bs < fuel)%nat ->
+  exists st', read_stream utf8_valid inflate window sw_dict wwrite_total fuel rc st bs = (delivered_mixed l, OMore _ st' false)
+              /\ r_dps _ st' = w /\ cf_init _ st' = false.
+Proof. exact (fidelity_mixed utf8_valid deflate_raw inflate deflate_wf deflate_small H_flate H_flate_nodict). Qed.
 End C02.
 
 (* window updates by segments equal one update by the whole (streamed sends, vectored sends): C17_compose lifted *)
@@ -71,7 +94,19 @@ Example C02_nonvacuous :
   end.
 Proof. vm_compute. reflexivity. Qed.
 
+(* a broadcast (compressed with no dictionary) between two direct sends: all three payloads are in the window *)
+Example C02_mixed_nonvacuous :
+  let c := {| w_server := true; w_pmd := true; w_threshold := 0; w_wlimit := 1000; w_utf8 := false |} in
+  let l := [SDirect (2, [[1; 2; 3]], [0; 0; 0; 0]); SBroadcast c 2 [7; 8] [0; 0; 0; 0]; SDirect (2, [[4; 5]; [6]], [0; 0; 0; 0])] in
+  match send_mixed (fun _ => true) (fun _ p => p ++ [0; 0; 255; 255]) c (sw_make 16) l with
+  | Some (_, w) => sw_dict w = [1; 2; 3; 7; 8; 4; 5; 6]
+  | None => False
+  end.
+Proof. vm_compute. reflexivity. Qed.
+
 Print Assumptions C02_dict_is_history.
+Print Assumptions C02_dict_is_history_mixed.
+Print Assumptions C02_windows_agree_mixed.
 Print Assumptions C02_frame_contents.
 Print Assumptions C02_windows_agree.
 Print Assumptions C02_segmented_updates.
